@@ -227,6 +227,46 @@ def curated_shapes():
     return out
 
 
+def generated_shapes(count, seed=20261003, smax=4, amax=3):
+    """a reproducible family of further skeletons for the thorough tiers (a fixed pseudo-random construction, NOT sampling at
+    check time: the same list on every run): 2..smax states, 1..amax actions, state-dependent action sets, successor rows from
+    a menu of splits (incl. explicit zero entries), 0-2 explicitly absorbing states, multi-state initial distributions.
+    Every state keeps at least one action and every listed state is reachable from the initial support."""
+    import random as _r
+    rng = _r.Random(seed)
+    H, Q1, Q3, T = F(1, 2), F(1, 4), F(3, 4), F(1, 3)
+    splits = [[F(1)], [H, H], [Q1, Q3], [T, 2 * T], [Q1, Q1, H], [F(1), F(0)]]
+    out = []
+    guard = 0
+    while len(out) < count and guard < 50 * count:
+        guard += 1
+        S = rng.randint(2, smax)
+        A = rng.randint(1, amax)
+        avail = []
+        for s_ in range(S):
+            k = rng.randint(1, A)
+            avail.append(sorted(rng.sample(range(A), k)))
+        for a in range(A):                                         # every action exists somewhere
+            if not any(a in av for av in avail):
+                k = rng.randrange(S)
+                avail[k] = sorted(set(avail[k]) | {a})
+        rows = {}
+        for s_ in range(S):
+            for a in avail[s_]:
+                sp = rng.choice([x for x in splits if len(x) <= S])
+                tg = rng.sample(range(S), len(sp))
+                rows[(s_, a)] = {t: p for t, p in zip(tg, sp)}
+        absorb = rng.sample(range(S), rng.choice([0, 1, 1, 2]) if S > 2 else rng.choice([0, 1]))
+        k0 = rng.randint(1, min(2, S))
+        st = rng.sample(range(S), k0)
+        s0 = {st[0]: F(1)} if k0 == 1 else {st[0]: Q1, st[1]: Q3}
+        sh = Shape(S, A, avail, rows, absorb=absorb, s0=s0, name=f'gen{len(out)}')
+        if sh.reach_from(list(s0), stop=set(absorb)) != set(range(S)):
+            continue
+        out.append(sh)
+    return out
+
+
 def proper_shapes():
     """goal-reaching skeletons (every policy reaches the absorbing state w.p. 1)"""
     H, Q1, Q3, T = F(1, 2), F(1, 4), F(3, 4), F(1, 3)
